@@ -2,6 +2,8 @@ use crate::common::{Tier, Violation};
 use serde_json::Value;
 
 pub mod c06;
+pub mod c05;
+pub mod c02;
 pub mod c03;
 pub mod c15;
 pub mod c17;
@@ -9,6 +11,8 @@ pub mod c17;
 pub fn run(id: &str, tier: Tier) -> i32 {
     match id {
         "C06" => c06::run(tier),
+        "C05" => c05::run(tier),
+        "C02" => c02::run(tier),
         "C03" => c03::run(tier),
         "C15" => c15::run(tier),
         "C17" => c17::run(tier),
@@ -24,6 +28,8 @@ pub fn replay(id: &str, v: &Value) -> i32 {
     let case = &v["case"];
     let f: fn(&Value) -> Option<Violation> = match id {
         "C06" => c06::replay_case,
+        "C05" => c05::replay_case,
+        "C02" => c02::replay_case,
         "C03" => c03::replay_case,
         "C15" => c15::replay_case,
         "C17" => c17::replay_case,
